@@ -37,6 +37,18 @@ def step (_ : Unit) (line : String) : Unit × String :=
       let ids := ["C11", "C02", "C09", "C04"].filter fun p => fails.any (·.startsWith p)
       ((), model ++ " ||| " ++ (if fails.isEmpty then "ok" else "bad:" ++ ",".intercalate ids ++ ":" ++ "; ".intercalate fails))
     | _, _ => ((), "bad-op")
+  | ["lfs", n, b] =>
+    match n.toNat?, b.toNat? with
+    | some n, some b =>
+      -- everything written before the stop and everything the TERM handler wrote, in order, once
+      let l := s!"[1:1-{n},2:1-{b}]"
+      let model := s!"mem_out={l} mem_err={l} file_out={l} file_err={l}"
+      let fails := (if fieldOf impl "mem_out" != l then ["C11:stdout-lines-in-memory-log (output written while the process was being stopped)"] else []) ++
+        (if fieldOf impl "mem_err" != l then ["C11:stderr-lines-in-memory-log (output written while the process was being stopped)"] else []) ++
+        (if fieldOf impl "file_out" != l then ["C11:stdout-lines-in-log-file (output written while the process was being stopped)"] else []) ++
+        (if fieldOf impl "file_err" != l then ["C11:stderr-lines-in-log-file (output written while the process was being stopped)"] else [])
+      ((), model ++ " ||| " ++ (if fails.isEmpty then "ok" else "bad:C11:" ++ "; ".intercalate fails))
+    | _, _ => ((), "bad-op")
   | _ => ((), "bad-op")
 
 end PC.Drv.LogFile
